@@ -1,4 +1,4 @@
-"""C14 Filtering never removes a value that takes part in a solution (PropMC, all 21 types)."""
+"""C14 Bound-consistent propagators compute exactly the bounds hull; second call idempotent; affine_eq = one round (PropMC)."""
 import time
 
 from mc import propmc
@@ -11,14 +11,15 @@ def run(tier, seed):
     t0 = time.time()
     acc = propmc.run(PROP, tier, seed)
     calls = acc.c["calls"]
+    nt = acc.c["nt_any"] + acc.c["nt_affine_eq_pruned"]
     cov = {
         "states": calls,
-        "transitions": calls,
+        "transitions": calls + acc.c["second_calls"],
         "traces_validated_against_impl": calls,
         "evaluations": calls,
-        "distinct_nontrivial": acc.c["nt_any"],
-        "rule": "every (type, arity, params, box) of the contract table (DESIGN 2.7) is one state; one real call each; "
-                "non-trivial = distinct input on which the call pruned a bound, failed, or answered 'entailed'",
+        "distinct_nontrivial": nt,
+        "rule": "every (type, arity, params, box) of the contract table (DESIGN 2.7) is one state, one real call each; "
+                "non-trivial = distinct input on which the call pruned, failed or answered 'entailed' (for affine_eq: the one-round reference box differs from the input)",
         "exhaustive": True,
         "instances": acc.c["instances"],
         "bounds": f"tier={tier}: arity<=3-4, 3-5 values per variable, all parameter vectors of the table, all boxes",
@@ -26,7 +27,7 @@ def run(tier, seed):
     return finish(PROP, tier, seed, "model_checking", acc, cov,
                   ["relation predicates of mc/contracts.py (written from the documentation)",
                    "interpreted mode executes the same Python source numba compiles (bound to compiled mode by C15)"],
-                  t0, vacuity={"pruned_types": 15, "failed_types": 15})
+                  t0, vacuity={"pruned_types": 14, "second_calls": 100000, "nt_affine_eq_pruned": 1000})
 
 
 def replay(entry):
